@@ -158,6 +158,11 @@ func (x *Exec) eval(ctx *SpecCtx, e *Expr) Value {
 			c2.names[n] = v
 		}
 		body := x.evalBool(&c2, e.Args[0])
+		if len(vars) == 1 {
+			if r, ok := x.expandBounded(e.Kind, body, vars[0]); ok {
+				return r
+			}
+		}
 		for i, v := range vars {
 			body, vars[i] = x.absIndex(body, v)
 		}
@@ -175,6 +180,14 @@ func (x *Exec) qcount() int { x.qn++; return x.qn }
 type nilV struct{}
 
 func (x *Exec) evalIdent(ctx *SpecCtx, name string) Value {
+	if ctx.fr != nil && !ctx.inOld {
+		// inside the function a parameter name means the variable's current value
+		if _, isParam := ctx.fr.params[name]; isParam {
+			if v, ok := x.lookupLocal(ctx.st, ctx.fr, name); ok {
+				return v
+			}
+		}
+	}
 	if v, ok := ctx.names[name]; ok {
 		return v
 	}
@@ -619,6 +632,18 @@ func (x *Exec) evalCall(ctx *SpecCtx, e *Expr) Value {
 			specFail("disjointcap() needs slices in %s", e.String())
 		}
 		return b.Or(b.Ne(l.Obj, r.Obj), b.Le(b.Add(l.Off, l.Cap), r.Off), b.Le(b.Add(r.Off, r.Cap), l.Off))
+	case "id":
+		// identity of an object or of an interface value (type tag and payload)
+		need(1)
+		switch v := arg(0).(type) {
+		case IfaceV:
+			return b.App("iface!id", SInt, v.Typ, v.Val)
+		case PtrV:
+			return v.Obj
+		case *Term:
+			return v
+		}
+		specFail("id() of unsupported value in %s", e.String())
 	case "sameobj":
 		need(2)
 		return b.Eq(objOf(arg(0)), objOf(arg(1)))
@@ -1017,10 +1042,18 @@ func (x *Exec) applyGhostSet(ctx *SpecCtx, gs GhostSet) {
 // index (i -> k - c when every read is at c + i): solvers instantiate such quantifiers reliably.
 func (x *Exec) absIndex(body *Term, v *Term) (*Term, *Term) {
 	b := x.b
-	var off *Term
+	// offsets c of reads at c+v, separately for memory arrays and for spec-function arrays
+	var memOffs, specOffs []*Term
 	ok := true
-	found := false
 	seen := map[*Term]bool{}
+	addOff := func(list []*Term, t *Term) []*Term {
+		for _, o := range list {
+			if o == t {
+				return list
+			}
+		}
+		return append(list, t)
+	}
 	var rec func(t *Term)
 	rec = func(t *Term) {
 		if !ok || seen[t] || !t.bound {
@@ -1041,13 +1074,11 @@ func (x *Exec) absIndex(body *Term, v *Term) (*Term, *Term) {
 					ok = false
 					return
 				}
-				if off == nil {
-					off = rest
-				} else if off != rest {
-					ok = false
-					return
+				if t.Args[0].Op == "app" {
+					specOffs = addOff(specOffs, rest)
+				} else {
+					memOffs = addOff(memOffs, rest)
 				}
-				found = true
 			}
 		}
 		for _, a := range t.Args {
@@ -1055,10 +1086,112 @@ func (x *Exec) absIndex(body *Term, v *Term) (*Term, *Term) {
 		}
 	}
 	rec(body)
-	if !ok || !found || off == nil || (off.Op == "int" && off.Val.Sign() == 0) {
+	if !ok {
+		return body, v
+	}
+	var off *Term
+	switch {
+	case len(memOffs) == 1:
+		off = memOffs[0]
+	case len(memOffs) == 0 && len(specOffs) == 1:
+		off = specOffs[0]
+	default:
+		return body, v
+	}
+	if off.Op == "int" && off.Val.Sign() == 0 {
 		return body, v
 	}
 	k := b.Var(v.Name+"a", SInt)
 	nb := b.Subst(body, map[*Term]*Term{v: b.Sub(k, off)})
 	return nb, k
+}
+
+// expandBounded turns "forall v :: lo <= v && v < hi ==> P(v)" with literal bounds spanning at
+// most 64 values into the conjunction of its instances (exists: "lo <= v && v < hi && P").
+func (x *Exec) expandBounded(kind string, body *Term, v *Term) (*Term, bool) {
+	b := x.b
+	var guard []*Term
+	var rest *Term
+	if kind == "forall" {
+		if body.Op != "=>" {
+			return nil, false
+		}
+		rest = body.Args[1]
+		if body.Args[0].Op == "and" {
+			guard = body.Args[0].Args
+		} else {
+			guard = []*Term{body.Args[0]}
+		}
+	} else {
+		if body.Op != "and" {
+			return nil, false
+		}
+		guard = body.Args
+	}
+	var lo, hi *big.Int
+	var others []*Term
+	for _, g := range guard {
+		used := false
+		if (g.Op == "<=" || g.Op == "<") && len(g.Args) == 2 {
+			l, r := g.Args[0], g.Args[1]
+			adj := int64(0)
+			if g.Op == "<" {
+				adj = 1
+			}
+			if l.Op == "int" && r == v {
+				c := new(big.Int).Add(l.Val, big.NewInt(adj))
+				if lo == nil || c.Cmp(lo) > 0 {
+					lo = c
+				}
+				used = true
+			} else if r.Op == "int" && l == v {
+				c := new(big.Int).Sub(r.Val, big.NewInt(adj))
+				if hi == nil || c.Cmp(hi) < 0 {
+					hi = c
+				}
+				used = true
+			}
+		}
+		if !used {
+			others = append(others, g)
+		}
+	}
+	if lo == nil || hi == nil {
+		return nil, false
+	}
+	n := new(big.Int).Sub(hi, lo)
+	if n.Sign() < 0 {
+		if kind == "forall" {
+			return b.True(), true
+		}
+		return b.False(), true
+	}
+	if n.Cmp(big.NewInt(63)) > 0 {
+		return nil, false
+	}
+	var inst []*Term
+	for i := new(big.Int).Set(lo); i.Cmp(hi) <= 0; i = new(big.Int).Add(i, big1) {
+		m := map[*Term]*Term{v: b.IntB(i)}
+		if kind == "forall" {
+			t := b.Subst(rest, m)
+			if len(others) > 0 {
+				var os []*Term
+				for _, o := range others {
+					os = append(os, b.Subst(o, m))
+				}
+				t = b.Implies(b.And(os...), t)
+			}
+			inst = append(inst, t)
+		} else {
+			var os []*Term
+			for _, o := range others {
+				os = append(os, b.Subst(o, m))
+			}
+			inst = append(inst, b.And(os...))
+		}
+	}
+	if kind == "forall" {
+		return b.And(inst...), true
+	}
+	return b.Or(inst...), true
 }
